@@ -898,3 +898,40 @@ impl Cat for CipSliceU8 {
         a == b
     }
 }
+
+/// Slice of mirrored `usize` values whose offsets live in the stride-optimised container: the stored offsets ARE the
+/// (unconstrained) values, so stride breaks, spills and the u32/u64 switch all depend on the pushed data.
+pub struct SliceUsizeOpt;
+impl Cat for SliceUsizeOpt {
+    type R = SliceRegion<MirrorRegion<usize>, IndexOptimized>;
+    type V = [usize; 2];
+    fn any() -> [usize; 2] {
+        sym::words::<2>()
+    }
+    fn push(r: &mut Self::R, v: &[usize; 2]) -> (usize, usize) {
+        r.push(v.as_slice())
+    }
+    fn check(r: &Self::R, idx: (usize, usize), v: &[usize; 2], asp: Asp) {
+        let item = r.index(idx);
+        assert!(item.len() == 2, "ITEM: slice length differs from the pushed value");
+        assert!(item.get(0) == v[0] && item.get(1) == v[1], "ITEM: slice element differs from the pushed value");
+        if asp.iter() {
+            let mut it = item.iter();
+            assert!(it.next() == Some(v[0]) && it.next() == Some(v[1]) && it.next().is_none(), "ITEM: iteration differs from the pushed value");
+        }
+        if asp.owned() {
+            let o: Vec<usize> = item.into_owned();
+            assert!(o.len() == 2 && o[0] == v[0] && o[1] == v[1], "ITEM: into_owned differs from the pushed value");
+            sym::forget(o);
+        }
+    }
+    fn model_eq(a: &[usize; 2], b: &[usize; 2]) -> bool {
+        a == b
+    }
+    fn payload(_v: &[usize; 2]) -> usize {
+        0
+    }
+    fn idx_eq(a: (usize, usize), b: (usize, usize)) -> bool {
+        a == b
+    }
+}
